@@ -13,16 +13,25 @@ PLANS = {
     "C01": dict(
         quick=dict(mc=["core2"], gens=[dict(maxlog=2, num=60, depth=24, lean=True, focus="commit")],
                    per_beh=3, fs=[1, 3, 25, 60], vts=["tiny", "edge", "ovf", "empty", "big", "mixed", "mixed2"],
-                   embs=api.EMBEDDINGS_QUICK),
+                   embs=api.EMBEDDINGS_QUICK, forced=[("scatter", "mixed", 60)]),
         thorough=dict(mc=["core", "core2"], gens=[dict(maxlog=2, num=600, depth=30, lean=True, focus="commit"),
                                                   dict(maxlog=3, num=300, depth=30, lean=False, focus="commit")],
                       per_beh=4, fs=[1, 3, 25, 60, 400], vts=["tiny", "edge", "ovf", "empty", "big", "huge", "mixed", "mixed2"],
-                      embs=api.EMBEDDINGS_ALL)),
+                      embs=api.EMBEDDINGS_ALL, forced=[("scatter", "mixed", 60), ("scatter", "mixed2", 200)])),
     "C02": dict(
-        quick=dict(mc=["core2"], gens=[dict(maxlog=2, num=60, depth=24, lean=True, focus="commit")],
-                   per_beh=2, fs=[1, 19, 21, 25], vts=["tiny"], embs=api.EMBEDDINGS_QUICK),
+        quick=dict(mc=["core2"], gens=[dict(maxlog=2, num=60, depth=24, lean=True, focus="commit"),
+                                       dict(maxlog=2, num=500, depth=28, lean=True, focus="overlay", top=40)],
+                   per_beh=2, fs=[1, 19, 21, 25], vts=["tiny", "edge", "ovf"], embs=api.EMBEDDINGS_QUICK),
         thorough=dict(mc=["core", "core2"], gens=[dict(maxlog=2, num=600, depth=30, lean=True, focus="commit")],
                       per_beh=5, fs=[1, 3, 19, 20, 21, 25, 400], vts=["tiny", "edge"], embs=api.EMBEDDINGS_ALL)),
+    "C05": dict(
+        quick=dict(mc=["ovl"], gens=[dict(maxlog=2, num=400, depth=26, lean=True, focus="overlay", top=40),
+                                     dict(maxlog=2, num=40, depth=22, lean=True, focus="reopen")],
+                   per_beh=2, fs=[1, 3, 25], vts=["tiny", "edge"],
+                   embs=["top:z", "top:o", "deep(6):z", "deep(12):o", "spread(7):z", "tail", "deep(250)", "spread(64)", "scatter"]),
+        thorough=dict(mc=["ovl", "core2"], gens=[dict(maxlog=2, num=4000, depth=30, lean=True, focus="overlay", top=400),
+                                                 dict(maxlog=2, num=300, depth=28, lean=True, focus="reopen")],
+                      per_beh=4, fs=[1, 3, 25, 60], vts=["tiny", "edge", "ovf"], embs=api.EMBEDDINGS_ALL)),
     "C06": dict(
         quick=dict(mc=["core2"], gens=[dict(maxlog=2, num=70, depth=24, lean=True, focus="commit")],
                    per_beh=3, fs=[1, 3, 25], vts=["tiny", "edge"], embs=api.EMBEDDINGS_QUICK),
@@ -68,11 +77,11 @@ PLANS = {
                       per_beh=4, fs=[1, 3, 25, 400], vts=["tiny", "edge", "ovf", "big"], embs=api.EMBEDDINGS_ALL,
                       reopen_cfgs=True, twins="reopen")),
     "C11": dict(
-        quick=dict(mc=["ovl"], gens=[dict(maxlog=2, num=80, depth=26, lean=True, focus="overlay")],
-                   per_beh=2, fs=[1, 3, 25], vts=["tiny", "edge"], embs=api.EMBEDDINGS_QUICK),
-        thorough=dict(mc=["ovl", "ovl3"], gens=[dict(maxlog=2, num=600, depth=32, lean=True, focus="overlay"),
+        quick=dict(mc=["ovl"], gens=[dict(maxlog=2, num=600, depth=28, lean=True, focus="overlay", top=70)],
+                   per_beh=2, fs=[1, 3, 25], vts=["tiny", "edge", "ovf", "mixed"], embs=api.EMBEDDINGS_QUICK),
+        thorough=dict(mc=["ovl", "ovl3"], gens=[dict(maxlog=2, num=6000, depth=32, lean=True, focus="overlay", top=600),
                                                 dict(maxlog=2, num=300, depth=32, lean=False, focus="overlay")],
-                      per_beh=4, fs=[1, 3, 25], vts=["tiny", "edge", "ovf"], embs=api.EMBEDDINGS_ALL)),
+                      per_beh=4, fs=[1, 3, 25], vts=["tiny", "edge", "ovf", "mixed"], embs=api.EMBEDDINGS_ALL)),
     "C12": dict(
         quick=dict(mc=["core2"], gens=[dict(maxlog=2, num=80, depth=26, lean=True, focus="rejected")],
                    per_beh=1, fs=[1, 3], vts=["tiny", "edge"], embs=api.EMBEDDINGS_QUICK, twins="rejected"),
@@ -82,8 +91,8 @@ PLANS = {
 }
 
 
-def run_plan(pid, tier, seed):
-    t0 = time.time()
+def run_plan(pid, tier, seed, extra_cov=None, t0=None):
+    t0 = t0 or time.time()
     plan = PLANS[pid][tier]
     rng = random.Random(seed * 7919 + int(pid[1:]))
     violations = []
@@ -119,6 +128,9 @@ def run_plan(pid, tier, seed):
         consts_by_class[ckey] = consts
         behs = api.gen_behaviours(consts, g["num"], g["depth"], seed * 1000 + gi, g["lean"], "%s_%d" % (pid, gi))
         kept = [b for b in behs if api.interesting(b, g["focus"])]
+        if g.get("top"):
+            # generate many, keep the behaviours richest in the features of the focus
+            kept = sorted(kept, key=lambda b: -api.score(b, g["focus"]))[: g["top"]]
         C.log("[%s] generated %d behaviours (maxlog=%d), %d match focus '%s'" %
               (pid, len(behs), g["maxlog"], len(kept), g["focus"]))
         for b in kept:
@@ -128,6 +140,11 @@ def run_plan(pid, tier, seed):
                 store, conc = api.concretise(b, consts, rng, f=rng.choice(plan["fs"]), emb=rng.choice(plan["embs"]),
                                              vt=rng.choice(plan["vts"]),
                                              segment_size=rng.choice(plan["segs"]) if plan.get("segs") else None)
+                if rep < len(plan.get("forced", [])):
+                    # a fixed concretisation every behaviour is also run under (interleaved groups of mixed-size cells:
+                    # leaves hold inline and overflow cells side by side, group deletions make them merge)
+                    fe, fv, ff = plan["forced"][rep]
+                    conc.update(emb=fe, vtable=api.VTABLES[fv], f=ff)
                 if plan.get("tiny_ht"):
                     # tiny hash tables (heavy tombstoning) as well as roomy ones
                     pages_needed = 8 + conc["f"] * 3
@@ -264,7 +281,13 @@ def run_plan(pid, tier, seed):
                exhaustive=False, model_checking=mc_summ, behaviours=nbeh, scripts=len(scripts),
                traces_rejected=len(rejections), known_findings=sorted({k["id"] for k in known}),
                notes=notes[:20], alloc_transitions_checked=alloc_pairs)
-    C.write_evidence(pid, tier, seed, "model_checking", cov, time.time() - t0, ASSUME, violations=len(violations))
+    if extra_cov:
+        # this check has a second leg (e.g. the proof-system leg of C05): keep its coverage and add up the counts
+        cov["other_leg"] = extra_cov
+        for k in ("states", "transitions", "traces_validated_against_impl", "evaluations", "distinct_nontrivial"):
+            cov[k] = cov.get(k, 0) + int(extra_cov.get(k, 0))
+    C.write_evidence(pid, tier, seed, "exploration" if pid == "C13" else "model_checking", cov, time.time() - t0, ASSUME,
+                     violations=len(violations))
     return 1 if violations else 0
 
 
